@@ -264,12 +264,15 @@ func C04(c *core.Ctx) {
 			return o
 		}
 		progs := [][]concOp{{mk(fmt.Sprintf("q%d-a", round))}, {mk(fmt.Sprintf("q%d-b", round))}}
+		if round%2 == 1 { // three: the last one queues for longer than the timeout before its own write
+			progs = append(progs, []concOp{mk(fmt.Sprintf("q%d-c", round))})
+		}
 		run := runConcFree(cfq, []concOp{{kind: "C", dialOK: true}}, progs)
 		c.Eval()
-		c.Hist("two queued senders, acks after 350 ms with a 600 ms timeout")
+		c.Hist(fmt.Sprintf("%d queued senders, acks after 350 ms with a 600 ms timeout", len(progs)))
 		for w := range progs {
 			if len(run.rets[w]) != 1 || run.rets[w][0] != "ok" {
-				c.Violation("judge-go", "c04-queued-timeout", fmt.Sprintf("sender %d of two queued senders: %v although its ack arrived 350 ms after its own write (timeout 600 ms)", w, run.rets[w]),
+				c.Violation("judge-go", "c04-queued-timeout", fmt.Sprintf("sender %d of %d queued senders: %v although its ack arrived 350 ms after its own write (timeout 600 ms)", w, len(progs), run.rets[w]),
 					map[string]interface{}{"timeout_ms": 600, "ack_delay_ms": 350, "results": renderRets(run.rets)})
 			}
 		}
